@@ -13,6 +13,19 @@ import (
 // VerifC12HTTPConfig — R9: a path variable with no matching or a non-scalar field, a
 // field bound to both path and query, a bodiless verb with unbound fields.
 func VerifC12HTTPConfig() {
+	files, broken := c12HTTPFiles()
+	errS := New(&protogen.Plugin{Files: files}).Generate()
+	errC := clientgen.VerifGenerate(files)
+	verif.Show("broken", broken)
+	verif.Show("go-http-refused", errS != nil)
+	verif.Assert("C12/http/go-http-refuses-iff-broken", (errS != nil) == broken)
+	verif.Assert("C12/http/go-client-never-refuses-valid", broken || errC == nil)
+	verif.Reach("C12/http/decided")
+}
+
+// c12HTTPFiles: one service with one method whose HTTP configuration, verb and request fields
+// are arbitrary (valid or not); broken reports whether a rule of R9 is violated.
+func c12HTTPFiles() ([]*protogen.File, bool) {
 	w := c12NewWorld()
 	req := verif.NewMessage("acme.v1", "GetReq")
 	// f1 "item_id": symbolic kind/cardinality, optionally query-annotated (with a renamed parameter)
@@ -87,11 +100,5 @@ func VerifC12HTTPConfig() {
 			}
 		}
 	}
-	errS := New(&protogen.Plugin{Files: files}).Generate()
-	errC := clientgen.VerifGenerate(files)
-	verif.Show("broken", broken)
-	verif.Show("go-http-refused", errS != nil)
-	verif.Assert("C12/http/go-http-refuses-iff-broken", (errS != nil) == broken)
-	verif.Assert("C12/http/go-client-never-refuses-valid", broken || errC == nil)
-	verif.Reach("C12/http/decided")
+	return files, broken
 }
